@@ -14,7 +14,8 @@ THEOREMS = {
             "toV_mulVec", "toM_matMul", "toM_ident", "inverse_certificate", "beta_unique_solution", "toM_addGram",
             "toV_addXty", "ridge_closed_form", "linucb_bonus_quadratic_form", "scaleRow_unfitted", "scaleRow_fitted", "linear_history_closed_form"],
     "C03": ["radius_exact", "euclid_via_squares", "knn_override_valid", "nanInv_init", "nanInv_addArm", "nanInv_removeArm",
-            "empty_nhood_exps", "nhood_from_scratch", "fit_discards", "knn_valid", "sorted_pairs"],
+            "empty_nhood_exps", "nhood_from_scratch", "fit_discards", "knn_valid", "sorted_pairs",
+            "step_hist", "runHist_hist"],
     "C04": ["noninterference_private", "shared_default_counterexample", "world_step_deterministic", "private_copy_frame"],
     "C05": ["partition_exact_cover", "effectiveJobs_bounds", "splitBySizes_flatten", "chunked_map", "predict_any_partition",
             "fit_tasks_commute", "parallelFitIn_closed", "Py.Dict.foldl_modify",
@@ -96,7 +97,7 @@ THEOREMS = {
 IMPORTS = {
     "C01": ["MabModel.Props.C01", "MabModel.Props.C01b"],
     "C02": ["MabModel.Props.C02", "MabModel.Props.C02b", "MabModel.Props.C02c"],
-    "C03": ["MabModel.Props.C03"],
+    "C03": ["MabModel.Props.C03", "MabModel.Props.C03b"],
     "C04": ["MabModel.Props.C04"],
     "C05": ["MabModel.Props.C05", "MabModel.Props.C05b", "MabModel.Props.C05c", "MabModel.Props.C05d"],
     "C06": ["MabModel.Props.C06", "MabModel.Props.C06b", "MabModel.Props.C06c", "MabModel.Props.C06d"],
